@@ -1042,7 +1042,58 @@ def rule_empty_selection(ctx, rid='R12'):
                      '(the label spelling a[[]] works)', node=conv.node)
 
 
+def rule_is_numeric(ctx, rid='R13'):
+    """R13: the predicate that decides whether a tolerance applies (Axis.loc drops `tol` on non-numeric axes) and whether a slice bound is searched by
+    value: True for integer and float label arrays, False for str / object ones.  Decided on a table of dtype kinds - an inverted or widened test silently
+    ignores the tolerance on numeric axes, or applies np.abs(labels - value) to str labels."""
+    from ..rules import val_eval, UNKNOWN
+    ctx.rule(rid, 'is_numeric: numeric label kinds only (table over dtype kinds)', 2)
+    want = {'i': True, 'f': True, 'U': False, 'O': False, 'S': False}
+    for q in ('dimarray.tools.is_numeric', IDX + 'is_numeric'):
+        fi = ctx.P.functions.get(q)
+        if fi is None:
+            continue
+        ctx.functions.add(q)
+        A = P_(fi.params[0])
+        kind = ('attr', ('attr', A, 'dtype'), 'kind')
+        bad = None
+        for k, w in sorted(want.items()):
+            env = {kind: k}
+
+            def oracle(atom, st, _env=env):
+                v_ = val_eval(atom, _env)
+                return None if v_ is UNKNOWN else bool(v_)
+            ev = run(ctx, fi, oracle=oracle)
+            rets = ret_paths(ev)
+            got = set()
+            for p in rets:
+                v_ = val_eval(p.value, env)
+                got.add(UNKNOWN if v_ is UNKNOWN else bool(v_))
+            if UNKNOWN in got or not got:
+                ctx.undecide(rid, '%s: result for dtype kind %r cannot be evaluated' % (q, k))
+                bad = 'undecided'
+                break
+            if got != {w} and bad is None:
+                bad = (k, w)
+        if bad == 'undecided':
+            continue
+        if bad:
+            ctx.violated(rid, fi, 'is_numeric for dtype kind %r' % bad[0], 'is_numeric answers %s for labels of dtype kind %r: Axis.loc keeps a tolerance only on numeric axes '
+                         '(so a.take(2.1, tol=0.2) on float labels would ignore the tolerance and raise, or the nearest-label search would be applied to str labels), and '
+                         'label slices are searched by value only on numeric axes' % (not bad[1], bad[0]))
+        else:
+            ctx.holds(rid, '%s: True for i / f labels, False for U / O / S' % q.replace('dimarray.', ''))
+    for q in (BASES + 'AbstractAxis.is_numeric',):
+        fi = ctx.fn(q)
+        ev = run(ctx, fi)
+        if all(p.kind == 'return' and p.value == ('call', ('name', 'is_numeric'), (('attr', SELF, 'values'),), ()) for p in ev.paths):
+            ctx.holds(rid, 'Axis.is_numeric() is is_numeric(self.values)')
+        else:
+            ctx.violated(rid, fi, 'Axis.is_numeric', 'Axis.is_numeric() must answer for the axis labels: is_numeric(self.values)')
+
+
 def check(ctx):
+    rule_is_numeric(ctx)
     rule_orthogonal_indexer(ctx)
     rule_expanded_indexer(ctx)
     rule_registry(ctx)
